@@ -3,6 +3,9 @@ package main
 
 import (
 	"fmt"
+	"math/big"
+
+	"go.dedis.ch/kyber/v4/pairing/bn254"
 
 	"kyverif/grpprog"
 	"kyverif/vh"
@@ -44,7 +47,75 @@ func main() {
 		}
 		grpprog.Laws(rng.Fork(), in, rep, nlaws)
 	}
+	// bn254 endomorphism split (lattice.go) against Group/GLV.v, for which non-negativity,
+	// size and k1 + k2*lambda = k (mod r) are proved for every k
+	glvCases(rng.Fork(), rep, cf, &id, o)
 	rep.Note("points of unknown logarithm (Pick/Hash/Embed) carry harness-chosen random logarithms in the model: partitions agree except with probability ~ #points^2/q per program")
 	vh.WriteShards(o.Out, "c01", cf, 15, rep)
 	rep.Write(o.Out)
+}
+
+func glvCases(r *vh.Rng, rep *vh.Report, cf *vh.CaseFile, id *int, o vh.Opts) {
+	q := grpprog.Order(bn254.NewSuite().G1())
+	lambda, _ := new(big.Int).SetString("4407920970296243842393367215006156084916469457145843978461", 10)
+	det := new(big.Int).Lsh(q, 1)
+	inv := []*big.Int{}
+	for _, s := range []string{"147946756881789318990833708069417712965", "147946756881789319010696353538189108491"} {
+		v, _ := new(big.Int).SetString(s, 10)
+		inv = append(inv, v)
+	}
+	var ks []*big.Int
+	add := func(v *big.Int) { ks = append(ks, new(big.Int).Mod(v, q)) }
+	n := 60
+	if o.Thorough {
+		n = 1500
+	}
+	for i := 0; i < n; i++ {
+		switch i % 6 {
+		case 0:
+			add(r.EdgeScalar(q))
+		case 1: // around multiples of the eigenvalue
+			m := big.NewInt(int64(r.Intn(5)))
+			v := new(big.Int).Mul(lambda, m)
+			add(v.Add(v, big.NewInt(int64(r.Intn(41)-20))))
+		case 2: // lambda plus something of the size of the short basis entries
+			v := new(big.Int).Add(lambda, r.BigBelow(new(big.Int).Lsh(big.NewInt(1), uint(40+r.Intn(30)))))
+			add(v)
+		case 3: // at the rounding threshold of one of the two quotients: k*inv_i = j*det + det/4 +- small
+			j := r.BigBelow(inv[i/6%2])
+			v := new(big.Int).Mul(j, det)
+			v.Add(v, new(big.Int).Rsh(det, 2))
+			v.Div(v, inv[i/6%2])
+			add(v.Add(v, big.NewInt(int64(r.Intn(5)-2))))
+		case 4:
+			add(new(big.Int).Sub(q, big.NewInt(int64(1+r.Intn(1000)))))
+		default:
+			add(r.BigBelow(q))
+		}
+	}
+	var items []string
+	for _, k := range ks {
+		d := bn254.VerifDecompose(k)
+		items = append(items, fmt.Sprintf("(%s, (%s, %s))", vh.CoqZ(k), vh.CoqZ(d[0]), vh.CoqZ(d[1])))
+		rep.Count("glv/"+k.String(), true)
+		rep.Dist("glv")
+		// oracle: non-negative, short, and congruent
+		chk := new(big.Int).Mul(d[1], lambda)
+		chk.Add(chk, d[0]).Sub(chk, k).Mod(chk, q)
+		if d[0].Sign() < 0 || d[1].Sign() < 0 || d[0].BitLen() > 130 || d[1].BitLen() > 130 || chk.Sign() != 0 {
+			rep.Fail("C01/bn254.G1/endomorphism-split", "the endomorphism split of a scalar is negative, too long or not congruent to the scalar",
+				map[string]string{"k": k.String(), "k1": d[0].String(), "k2": d[1].String()})
+		}
+		if len(items) == 40 {
+			cf.Items = append(cf.Items, fmt.Sprintf("CGlv %d %s", *id, vh.CoqList(items)))
+			rep.Index(*id, map[string]interface{}{"kind": "bn254 endomorphism split", "first_k": k.String()})
+			*id++
+			items = nil
+		}
+	}
+	if len(items) > 0 {
+		cf.Items = append(cf.Items, fmt.Sprintf("CGlv %d %s", *id, vh.CoqList(items)))
+		rep.Index(*id, map[string]interface{}{"kind": "bn254 endomorphism split"})
+		*id++
+	}
 }
